@@ -827,12 +827,12 @@ class Emitter:
         if n == 'vf_assume': o.append('  __CPROVER_assume(%s);' % av[0]); return
         if n == 'vf_assert':
             msg = s.const_cstr(args[1])
-            if msg is None: s.nanon = getattr(s, 'nanon', 0) + 1; msg = '?site%d' % s.nanon
+            if msg is None: raise ValueError('vf_assert with a non-constant message in %s (call sites were merged by the optimiser)' % f.name)
             msg = msg.replace('\\', '\\\\').replace('"', '\\"')
             o.append('  __CPROVER_assert(%s, "VF %s");' % (av[0], msg)); return
         if n == 'vf_reach':
             msg = s.const_cstr(args[0])
-            if msg is None: s.nanon = getattr(s, 'nanon', 0) + 1; msg = '?site%d' % s.nanon
+            if msg is None: raise ValueError('vf_reach with a non-constant tag in %s' % f.name)
             o.append('  rt_reach("REACH %s");' % msg); return
         if n == 'vf_nondet_long':
             o.append('  { u64 nd_ = nondet_w(); RT_LOG_IN((s64)nd_); %s nd_; }' % ((d + ' =') if d else '(void)')); return
